@@ -14,8 +14,9 @@ Main theorems (all for EVERY item list and EVERY page size ≥ 1):
   checked on every generated history by the harness/driver).
   changes_token_type_bound             a ReadChanges token issued for type T is accepted with T' iff T = T'
   malformed_token_rejected             an accepted token is literally `position|type` (nothing else is read as a position)
-  offset tokens of memory `read`:      FullOffsetTokensNotMisread is FALSE of today's code (negative offset panics,
-                                       offset beyond the end restarts at the first item): partial + negation witnesses.
+  offset_tokens_not_misread           memory `read` answers an offset token with the window at that offset or rejects
+                                       it (`FullOffsetTokensNotMisread`, full since commit badbaa3 = finding F22 fixed;
+                                       the pre-fix tail `memReadPageBeforeFix` keeps its negation witnesses).
 -/
 import OpenFGAVerif.Model.Paging
 import OpenFGAVerif.Model.Token
@@ -31,7 +32,7 @@ open OpenFGAVerif.Model.Token (serialize deserialize b64encode b64decode)
 /-! ## Ties: the paging code the model mirrors, fragment by fragment -/
 
 theorem tie_memReadTail : Gen.Paging.memReadTail =
-    ["var err error", "var from int", "if options != nil && options.Pagination.From != \"\" { from, err = strconv.Atoi(options.Pagination.From) if err != nil { telemetry.TraceError(span, err) return nil, err } }", "if from <= len(matches) { matches = matches[from:] }", "to := 0", "if options != nil { to = options.Pagination.PageSize }", "if to != 0 && to < len(matches) { return &staticIterator{records: matches[:to], continuationToken: strconv.Itoa(from + to)}, nil }", "return &staticIterator{records: matches}, nil"] := by
+    ["var err error", "var from int", "if options != nil && options.Pagination.From != \"\" { from, err = strconv.Atoi(options.Pagination.From) if err != nil { telemetry.TraceError(span, err) return nil, err } }", "if from < 0 || from > len(matches) { return nil, storage.ErrInvalidContinuationToken }", "matches = matches[from:]", "to := 0", "if options != nil { to = options.Pagination.PageSize }", "if to != 0 && to < len(matches) { return &staticIterator{records: matches[:to], continuationToken: strconv.Itoa(from + to)}, nil }", "return &staticIterator{records: matches}, nil"] := by
   rfl
 
 theorem tie_memModelsPaging : Gen.Paging.memModelsPaging =
@@ -235,36 +236,56 @@ theorem undecodable_token_rejected (tok T : Bytes) (h : b64decode tok = none) :
     readChangesRequest tok T = .error .invalidToken := by
   simp [readChangesRequest, h]
 
-/-! ## Offset tokens of memory `read`: honest reading (full statement false of today's code) -/
+/-! ## Offset tokens of memory `read`: never misread (finding F22, fixed by commit badbaa3) -/
 
-/-- the page answered for offset token `n` is a window of the list starting at `n` (and there is no panic) -/
-def NotMisread {α : Type} (items : List α) (ps : Nat) (n : Int) : Prop :=
-  match memReadPage items ps n with
+/-- the answer to offset token `n`: no panic; either rejected or a window of the list starting at `n` -/
+def NotMisreadBy {α : Type} (pager : List α → Nat → Int → OffRes α) (items : List α) (ps : Nat) (n : Int) : Prop :=
+  match pager items ps n with
   | .panic => False
+  | .invalidToken => True
   | .page xs _ => 0 ≤ n ∧ xs <+: items.drop n.toNat
 
-def FullOffsetTokensNotMisread : Prop := ∀ (items : List Nat) (ps : Nat) (n : Int), NotMisread items ps n
+def FullOffsetTokensNotMisread : Prop := ∀ (items : List Nat) (ps : Nat) (n : Int), NotMisreadBy memReadPage items ps n
 
-/-- every offset the server can have issued (0 ≤ n ≤ length) is read honestly -/
-theorem offset_token_partial {α : Type} (items : List α) (ps : Nat) (n : Int) (h0 : 0 ≤ n) (h1 : n.toNat ≤ items.length) :
-    NotMisread items ps n := by
-  unfold NotMisread memReadPage
+/-- **Full statement, today's source**: every offset token is rejected or read as exactly its offset. -/
+theorem offset_tokens_not_misread {α : Type} (items : List α) (ps : Nat) (n : Int) : NotMisreadBy memReadPage items ps n := by
+  unfold NotMisreadBy memReadPage
+  by_cases h : n < 0 ∨ n > (items.length : Int)
+  · simp [h]
+  · have h0 : 0 ≤ n := by omega
+    simp only [h, if_false]
+    by_cases hc : ps ≠ 0 ∧ ps < (items.drop n.toNat).length
+    · rw [if_pos hc]; exact ⟨h0, List.take_prefix _ _⟩
+    · rw [if_neg hc]; exact ⟨h0, List.prefix_refl _⟩
+
+theorem full_offset_tokens_not_misread : FullOffsetTokensNotMisread := fun items ps n => offset_tokens_not_misread items ps n
+
+/-- exactly the offsets outside the result set are rejected: offsets the server issued (0 ≤ n ≤ length) never are -/
+theorem offset_token_rejected_iff {α : Type} (items : List α) (ps : Nat) (n : Int) :
+    memReadPage items ps n = .invalidToken ↔ (n < 0 ∨ n > (items.length : Int)) := by
+  unfold memReadPage
+  by_cases h : n < 0 ∨ n > (items.length : Int)
+  · simp [h]
+  · simp only [h, if_false, iff_false]
+    split <;> simp
+
+/-- before badbaa3 the statement held only for the offsets the server can have issued -/
+theorem offset_token_beforeFix_partial {α : Type} (items : List α) (ps : Nat) (n : Int) (h0 : 0 ≤ n) (h1 : n.toNat ≤ items.length) :
+    NotMisreadBy memReadPageBeforeFix items ps n := by
+  unfold NotMisreadBy memReadPageBeforeFix
   have : ¬ n < 0 := by omega
   simp only [this, if_false, h1, if_true]
   by_cases hc : ps ≠ 0 ∧ ps < (items.drop n.toNat).length
   · rw [if_pos hc]; exact ⟨h0, List.take_prefix _ _⟩
   · rw [if_neg hc]; exact ⟨h0, List.prefix_refl _⟩
 
-/-- F14a, negation witness: a negative offset (`"-1"`) panics (`matches[-1:]`) -/
-theorem offset_token_counterexample_negative : ¬ NotMisread [10, 11, 12] 2 (-1) := by
-  simp [NotMisread, memReadPage]
+/-- F22a (before badbaa3), negation witness: a negative offset (`"-1"`) panics (`matches[-1:]`) -/
+theorem offset_token_beforeFix_counterexample_negative : ¬ NotMisreadBy memReadPageBeforeFix [10, 11, 12] 2 (-1) := by
+  simp [NotMisreadBy, memReadPageBeforeFix]
 
-/-- F14b, negation witness: an offset beyond the end (`"7"` for 3 items) answers with the FIRST page -/
-theorem offset_token_counterexample_beyond : ¬ NotMisread [10, 11, 12] 2 7 := by
-  simp [NotMisread, memReadPage]
-
-theorem not_full_offset_tokens : ¬ FullOffsetTokensNotMisread :=
-  fun h => offset_token_counterexample_negative (h _ _ _)
+/-- F22b (before badbaa3), negation witness: an offset beyond the end (`"7"` for 3 items) answers with the FIRST page -/
+theorem offset_token_beforeFix_counterexample_beyond : ¬ NotMisreadBy memReadPageBeforeFix [10, 11, 12] 2 7 := by
+  simp [NotMisreadBy, memReadPageBeforeFix]
 
 /-- the clamped variant (ListStores / ReadAuthorizationModels) never panics and answers a window at the clamped offset -/
 theorem clamp_window {α : Type} (items : List α) (ps : Nat) (n : Int) :
